@@ -140,9 +140,7 @@ Theorem C06_set_accepted :
     Forall2 (parsed_as name_pre desc_pre) sfs nps /\
     match reqs with
     | [] => ns = nps
-    | _ :: _ =>
-        exists rq : node,
-          ns = rq :: nps /\ d_name (node_def rq) = bs "require" /\ node_comments rq = []
+    | _ :: _ => ns = req_pnode reqs :: nps
     end.
 Proof. exact BuildSet.factory_set_accepted. Qed.
 Print Assumptions C06_set_accepted.
